@@ -12,6 +12,7 @@ quantised integers (PolyAlg!RelHolds decides).
 """
 from __future__ import annotations
 
+import collections
 import hashlib
 import json
 import math
@@ -23,7 +24,7 @@ from . import core
 
 MECH = dict(MSubIsDifference=True, MCopyOnTransform=True, MOrient=True, MCopyFresh=True, MDeviceUsesHoles=True,
             MProbeOrigin=True)
-CLAUSES = ["TypeOK", "OnlySetOpsFail", "ProbesValidatedAtConstruction", "AreaMatchesMembership", "StoredClosedAndCCW", "AreaLaw", "PointsMapWithShapes",
+CLAUSES = ["TypeOK", "OnlySetOpsFail", "ProbesValidatedAtConstruction", "PrimitiveAngleIsCounterClockwise", "AreaMatchesMembership", "StoredClosedAndCCW", "AreaLaw", "PointsMapWithShapes",
            "SetOpsArePointwise", "NonInplaceNeverMutates", "InplaceReturnsSelf", "CopiesDoNotAlias",
            "DeviceIsFilmMinusHoles"]
 POLY_OPS = ["setop", "rotate", "translate", "scale", "copy", "poke"]
@@ -75,7 +76,7 @@ def constants_text(b, mech=None, export=False):
          f" Shifts = {_set(pair(*x) for x in b['Shifts'])}", f" Factors = {_set(pair(*x) for x in b['Factors'])}",
          f" Origins = {_set(pair(*x) for x in b['Origins'])}", f" MaxHoles = {b['MaxHoles']}", f" Chained = {'TRUE' if b.get('Chained') else 'FALSE'}",
          f" PolyOps = {_sset(b['PolyOps'])}", f" DevOps = {_sset(b['DevOps'])}",
-         f" ProbeModes = {_sset(b.get('ProbeModes', ['none']))}",
+         f" ProbeModes = {_sset(b.get('ProbeModes', ['none']))}", f" TiltQuarters = {_set(b.get('TiltQuarters', [0]))}",
          f" Export = {'TRUE' if export else 'FALSE'}"]
     for k, v in m.items():
         t.append(f" {k} = {'TRUE' if v else 'FALSE'}")
@@ -131,7 +132,7 @@ def chain_key(chain):
     for st in chain:
         o = st["o"]
         if o["op"] == "new":
-            out.append("new%s" % (unbox(o["a"]),))
+            out.append("new%s%s" % (unbox(o["a"]), " angle=%d" % (90 * o["q"]) if o["q"] else ""))
         else:
             out.append("%s%s(%s%s%s%s%s%s)%s" % (
                 o["op"], ":" + o["kind"] if o["kind"] else "", o["a"], "," + str(o["b"]) if o["b"] else "",
@@ -195,8 +196,11 @@ FRAMES = [Frame("origin, unit 1", (0, 0), 1.0, 1e-9),
           Frame("centre (-300000, 700000), unit 1/2", (-300000, 700000), 0.5, 1e-6)]
 
 
-def frame_of(variant):
-    return FRAMES[(variant // 97) % len(FRAMES)]
+def frame_of(variant, about_origin=False):
+    """about_origin: the chain uses the primitives' `angle` argument, which turns about the real (0, 0): only the
+    frames whose base is (0, 0) draw the grid where the model has it."""
+    fs = [f for f in FRAMES if not f.base.any()] if about_origin else FRAMES
+    return fs[(variant // 97) % len(fs)]
 
 
 def abstract_obj(p, H, C, fr=FRAMES[0]):
@@ -299,6 +303,14 @@ def apply_op(tdgl, heap, o, v):
     objs, devs = heap.objs, heap.devs
     fr = heap.fr
     u = fr.unit
+    if op == "new" and o["q"]:
+        # through the primitive's own `angle` argument (tdgl.geometry.box -> tdgl.geometry.rotate)
+        from tdgl.geometry import box as gbox
+
+        x0, y0, x1, y1 = unbox(o["a"])
+        n = [101, 16, 40, 9, 24][v % 5]
+        pts = gbox((x1 - x0) * u, (y1 - y0) * u, points=n, center=fr.pt(((x0 + x1) / 2, (y0 + y1) / 2)), angle=[90, 90.0][v % 2] * o["q"])
+        return Polygon(points=pts[::-1] if v % 3 == 0 else pts), f"geometry.box {n} points angle={90 * o['q']}"
     if op == "new":
         pts, form = box_points(tdgl, o["a"], v, fr)
         return Polygon(points=pts), form
@@ -395,7 +407,7 @@ def event_of(o):
 def replay_chain(tdgl, chain, H, variant):
     """Run one exported chain on real objects; returns the trace and a python-side diff against
     the exported expectation (diagnostics only; TLC decides)."""
-    fr = frame_of(variant)
+    fr = frame_of(variant, about_origin=any(st["o"]["op"] == "new" and st["o"]["q"] for st in chain))
     heap = Heap(tdgl, H, fr)
     ev, forms, diffs = [], [], []
     for n, st in enumerate(chain):
@@ -550,6 +562,74 @@ def _origin(rnd, p):
     return "centroid", np.array([c.x, c.y]), "centroid"
 
 
+def primitive_relations(tdgl, rnd, ev):
+    """The geometry primitives' own arguments (angle, center, points) and the public helper geometry.rotate, related to
+    an independent counter-clockwise rotation and to the Polygon-level operations:
+        box(w, h, center=c, angle=t)  ==  Polygon(box(w, h)).translate(c).rotate(t)   as regions (same for ellipse),
+        rotate(p, t) turns p counter-clockwise about (0, 0) (rotate([[1, 0]], 90) = [[0, 1]])."""
+    from tdgl import geometry as G
+
+    counts = collections.Counter()
+
+    def ccw(p, deg):
+        th = math.radians(deg)
+        R = np.array([[math.cos(th), -math.sin(th)], [math.sin(th), math.cos(th)]])
+        return np.asarray(p, dtype=float) @ R.T
+
+    def q6(d):
+        return [int(max(-10 ** 9, min(10 ** 9, round(v * 10 ** 6)))) for v in np.asarray(d, dtype=float).ravel()]
+
+    # the helper itself: exact right angles and general angles
+    for deg, p in [(90, [[1.0, 0.0]]), (90, [[0.0, 1.0]]), (180, [[1.0, 2.0]]), (-90, [[1.0, 0.0]]), (270, [[2.0, -1.0]]),
+                   (rnd.choice([30, 45, 17.5, -63.0, 133.3, 200.0]), [[rnd.uniform(-3, 3), rnd.uniform(-3, 3)] for _ in range(4)])]:
+        got = G.rotate(np.array(p), deg)
+        ev.append({"rel": "zero", "x": q6(got - ccw(p, deg)), "tol": 2, "clause": "PointsMapWithShapes (geometry.rotate is counter-clockwise)",
+                   "what": f"geometry.rotate({p}, {deg})"})
+        counts["geometry.rotate"] += 1
+    # the primitives
+    for _ in range(3):
+        kind = rnd.choice(["box", "ellipse"])
+        deg = rnd.choice([90, 270, 30, 45, 60.0, -20.0, 133.3, 17.0, 180, 0])
+        c = rnd.choice([(0, 0), (round(rnd.uniform(-2, 2), 2), round(rnd.uniform(-2, 2), 2))])
+        n = rnd.choice([12, 20, 40, 101])
+        if kind == "box":
+            w, h = round(rnd.uniform(0.5, 4.0), 2), round(rnd.uniform(0.5, 4.0), 2)
+            if rnd.random() < 0.15:
+                h = w
+            tilted, flat = G.box(w, h, points=n, center=c, angle=deg), G.box(w, h, points=n)
+            what = f"box({w}, {h}, points={n}, center={c}, angle={deg})"
+            asym = w != h
+        else:
+            a, b = round(rnd.uniform(0.5, 3.0), 2), round(rnd.uniform(0.4, 2.0), 2)
+            tilted, flat = G.ellipse(a, b, points=n, center=c, angle=deg), G.ellipse(a, b, points=n)
+            what = f"ellipse({a}, {b}, points={n}, center={c}, angle={deg})"
+            asym = a != b
+        # vertex-wise against an independent counter-clockwise rotation of the untilted, translated outline
+        want = ccw(np.asarray(flat) + np.array(c, dtype=float), deg)
+        ev.append({"rel": "zero", "x": q6(np.asarray(tilted) - want) if np.shape(tilted) == np.shape(want) else [10 ** 9], "tol": 2,
+                   "clause": "PointsMapWithShapes (the angle argument turns counter-clockwise about (0,0) after centring)", "what": what})
+        # as regions against the Polygon-level operations
+        A = tdgl.Polygon("tilted", points=tilted)
+        B = tdgl.Polygon("flat", points=flat).translate(c[0], c[1]).rotate(deg)
+        pts = _probes(rnd, [A, B], 32)
+        ev.append({"rel": "bits", "x": _bits(A.contains_points(pts)), "y": _bits(B.contains_points(pts)),
+                   "clause": "PointsMapWithShapes (primitive with angle/center == Polygon.translate().rotate())", "what": what})
+        ev.append({"rel": "area", "a0": int(round(B.area * Q_AREA)), "a1": int(round(A.area * Q_AREA)), "num": 1, "den": 1,
+                   "clause": "AreaLaw (tilted primitive)", "what": what})
+        ev.append(dict(_flags(A), what=what))
+        if asym and deg % 180 != 0:
+            counts[f"{kind} tilted (not a multiple of 180, {'w != h' if kind == 'box' else 'a != b'})"] += 1
+        else:
+            counts[f"{kind} other"] += 1
+    # circle(r, center) is the ellipse with equal axes, moved to the centre
+    r, c = round(rnd.uniform(0.4, 2.5), 2), (round(rnd.uniform(-2, 2), 2), round(rnd.uniform(-2, 2), 2))
+    n = rnd.choice([8, 24, 100])
+    ev.append({"rel": "zero", "x": q6(G.circle(r, points=n, center=c) - (G.ellipse(r, r, points=n) + np.array(c))), "tol": 2,
+               "clause": "PointsMapWithShapes (circle center)", "what": f"circle({r}, points={n}, center={c})"})
+    counts["circle"] += 1
+    return counts
+
+
 def relation_traces(tdgl, args, tmp):
     """Worker entry point: a batch of relation traces (seeds)."""
     return [relation_trace(tdgl, dict(seed=s, transforms=args.get("transforms", 3)), tmp) for s in args["seeds"]]
@@ -668,6 +748,7 @@ def relation_trace(tdgl, args, tmp):
                "what": what + ".translate"})
     ev.append({"rel": "ident", "same": any(x is y for x in D2.polygons for y in dev.polygons), "expect": False,
                "clause": "CopiesDoNotAlias", "what": "Device.translate(inplace=False) shares no polygon"})
+    nprim = primitive_relations(tdgl, rnd, ev)
     # probe points of a device travel with its film and holes (any angle, any origin, any place)
     inside = pts[dev.contains_points(pts)]
     nprobe = 0
@@ -699,4 +780,4 @@ def relation_trace(tdgl, args, tmp):
         ev.append({"rel": "same", "x": _hash_ints(pp), "y": _hash_ints(devp.probe_points), "clause": "NonInplaceNeverMutates (probe points)",
                    "what": "non-in-place device transforms"})
     return {"kind": "rel", "ev": ev, "key": f"rel seed={args['seed']} place={place}: " + " ; ".join(steps), "nset": nset, "seed": args["seed"],
-            "transforms": args.get("transforms", 3), "nprobe": nprobe, "place": list(place)}
+            "transforms": args.get("transforms", 3), "nprobe": nprobe, "place": list(place), "nprim": dict(nprim)}
